@@ -757,6 +757,27 @@ def _discharge1(o, inputs, opts, scale=None):
             return (r, mv, "")
         return job
 
+    # cheap in-process attempt (no fork); a watchdog thread interrupts z3 if it overruns
+    import threading
+    s_quick = z3.Solver()
+    s_quick.set("timeout", 400)
+    s_quick.add(*fml)
+    wd = threading.Timer(1.5, lambda: z3.main_ctx().interrupt())
+    wd.start()
+    try:
+        rq = str(s_quick.check())
+    except z3.Z3Exception:
+        rq = "unknown"
+    finally:
+        wd.cancel()
+    if rq == "unsat":
+        return {"verdict": "unsat", "backend": "z3", "seconds": time.time() - t0}
+    if rq == "sat":
+        try:
+            mv = _model_values(s_quick, inputs, scale)
+        except Exception:
+            mv = None
+        return {"verdict": "sat", "backend": "z3", "seconds": time.time() - t0, "model": mv}
     if o.axioms and opts.get("try_without_axioms", True):
         r0 = _forked(lambda: (_solve_z3(list(o.pc) + [z3.Not(o.goal)], min(tmo, 3000))[1], None, ""), 6)
         if r0[0] == "unsat":  # fewer hypotheses: still a proof
@@ -776,6 +797,23 @@ def _discharge1(o, inputs, opts, scale=None):
 
 
 def cover(o, opts):
+    """is the path reaching this obligation feasible (non-vacuity)?  quick in-process try, then forked."""
+    import threading
+    s = z3.Solver()
+    s.set("timeout", 400)
+    s.add(*o.axioms)
+    s.add(*o.pc)
+    wd = threading.Timer(1.5, lambda: z3.main_ctx().interrupt())
+    wd.start()
+    try:
+        r = str(s.check())
+    except z3.Z3Exception:
+        r = "unknown"
+    finally:
+        wd.cancel()
+    if r != "unknown":
+        return r
+
     def job():
         s = z3.Solver()
         s.set("timeout", int(opts.get("cover_timeout_ms", 5000)))
